@@ -77,6 +77,48 @@ def const_expr(op):
     return Struct('wasmparser::ConstExpr', (VecVal([op, Enum('wasmparser::Operator', 'End')]),), ('ops',))
 
 
+def validity(spec):
+    """limits facts the validator enforces (the description stands for VALID modules only): initial <= maximum; 32-bit
+    memories <= 2^16 pages, 64-bit <= 2^48; 32-bit tables < 2^32 entries; shared memories have a maximum; memarg
+    alignment <= natural alignment"""
+    pre = []
+
+    def lim(m, is_mem):
+        ini, mx = m['initial'].t, (m['maximum'].t if m.get('maximum') is not None else None)
+        f64 = m['memory64'] if is_mem else m['table64']
+        cap32 = z3.BitVecVal(1 << 16 if is_mem else (1 << 32) - 1, 64)
+        cap64 = z3.BitVecVal(1 << 48, 64) if is_mem else z3.BitVecVal((1 << 64) - 1, 64)
+        cap = z3.If(f64, cap64, cap32)
+        pre.append(z3.ULE(ini, cap))
+        if not is_mem:
+            pre.append(z3.ULE(ini, z3.BitVecVal(10000000, 64)))      # wasmparser MAX_WASM_TABLE_ENTRIES
+        if mx is not None:
+            pre.append(z3.ULE(mx, cap))
+            pre.append(z3.ULE(ini, mx))
+        elif is_mem:
+            pre.append(z3.Not(m['shared']))
+    for m in list(spec.memories) + [i for i in spec.imports if i['kind'] == 'memory']:
+        lim(m, True)
+    for t in list(spec.tables) + [i for i in spec.imports if i['kind'] == 'table']:
+        lim(t, False)
+    for f in spec.funcs:
+        for op in f['ops']:
+            for x in getattr(op, 'f', ()):
+                if isinstance(x, Struct) and x.ty.endswith('MemArg'):
+                    a, ma = x.get('align'), x.get('max_align')
+                    if isinstance(a, BV) and isinstance(ma, BV):
+                        pre.append(z3.ULE(a.t, ma.t))
+                    # offsets >= 2^32 are admitted only on 64-bit memories
+                    mems = [i for i in spec.imports if i['kind'] == 'memory'] + list(spec.memories)
+                    mi = x.get('memory')
+                    off = x.get('offset')
+                    if isinstance(off, BV) and isinstance(mi, BV) and z3.is_bv_value(z3.simplify(mi.t)):
+                        k = z3.simplify(mi.t).as_long()
+                        if k < len(mems):
+                            pre.append(z3.Or(mems[k]['memory64'], z3.ULT(off.t, z3.BitVecVal(1 << 32, 64))))
+    return [z3.simplify(c) for c in pre if not z3.is_true(z3.simplify(c))]
+
+
 class Pipeline:
     """installs the reader/validator/sink models on an interpreter and drives parse / emit"""
 
@@ -675,6 +717,7 @@ class Pipeline:
         I = self.I
         st = st or engine_state()
         st.pc.extend(extra_pc)
+        st.pc.extend(validity(spec))
         st.meta['payloads'] = self.payloads(spec)
         parse = self.ctx.fn(r'^module::<impl at src/module/mod\.rs:\d+:\d+: \d+:\d+>::parse$', lambda f: len(f.params) == 2)
         cfg = config if config is not None else self.default_config(st)
